@@ -245,3 +245,88 @@ def f_treeamend():
         "c2.py": script([["amend", {"inp": ["t/x.txt", "t/none.txt"]}], ["write", "c2.out", []]]),
         "t/x.txt": "x\n",
     }
+
+
+# -- more families for the history checks (C01, C04, C06, C07) -------------------------------------
+
+def f_glob(present=("a", "b"), mode="tree"):
+    """One step per file matching data/${*n}.txt; the matches are static by tree or by pattern."""
+    files = {f"data/{n}.txt": f"data {n}\n" for n in present}
+    files["data/"] = ""
+    body = [tr("G", ["data/{n}.txt"], ["out/{n}.out"])]
+    decl = ["static", "data/"] if mode == "tree" else ["static", "data/*.txt"]
+    files["plan.py"] = script([decl, ["glob", "data/${*n}.txt", {}, body]])
+    return files
+
+
+def f_env(value=None, how="declared", v=1):
+    """E: ./e.py depends on VERIF_X, declared with env= or amended at run time."""
+    if how == "declared":
+        root = [["static", "e.py"], ["run", "./e.py", {"env": ["VERIF_X"], "out": ["e.out"]}]]
+        e = [["write", "e.out", [], "$VERIF_X"]]
+    else:
+        root = [["static", "e.py"], ["run", "./e.py", {"out": ["e.out"]}]]
+        e = [["amend", {"env": ["VERIF_X"]}], ["write", "e.out", [], "$VERIF_X"]]
+    return {"plan.py": script(root, v=v), "e.py": script(e)}
+
+
+def f_vol(outdir="out/deep", log="vol", workdir=".", present=1):
+    """V: a step with a nested output directory, a volatile log and a working directory."""
+    prog = [["static", "src.txt"]]
+    if present:
+        kw = {"inp": ["src.txt"], "out": [f"{outdir}/o.txt"]}
+        if log == "vol":
+            kw["vol"] = ["out/log.txt"]
+        elif log == "out":
+            kw["out"].append("out/log.txt")
+        outs = kw["out"] + kw.get("vol", [])
+        cmd = f"tr V src.txt -- {' '.join(outs)}"
+        if workdir != ".":
+            # paths of the step are relative to its working directory
+            up = "/".join([".."] * len(workdir.split("/")))
+            kw = {"inp": [f"{up}/src.txt"], "out": [f"{up}/{p}" for p in kw["out"]],
+                  **({"vol": [f"{up}/{p}" for p in kw["vol"]]} if "vol" in kw else {}),
+                  "workdir": workdir}
+            outs = kw["out"] + kw.get("vol", [])
+            cmd = f"tr V {up}/src.txt -- {' '.join(outs)}"
+        prog.append(["step", cmd, kw])
+    return {"plan.py": script(prog), "src.txt": "src\n"}
+
+
+def f_redefine(inp=("src.txt",), out=("r.txt",)):
+    """R: the same command text with a varying signature (partial recycle path)."""
+    prog = [["static", "src.txt", "src2.txt"],
+            ["step", "./r.py", {"inp": ["r.py", *inp], "out": list(out)}],
+            ["static", "r.py"]]
+    r = [["write", o, list(inp)] for o in out]
+    if "r.txt" in out:
+        prog.append(tr("U", ["r.txt"], ["u.txt"]))
+    return {"plan.py": script(prog), "r.py": script(r), "src.txt": "1\n", "src2.txt": "2\n"}
+
+
+def f_optional(u=1, o2_need="OPTIONAL", src="x"):
+    """O1 (optional) -> O2 (optional/default) -> U (default)."""
+    prog = [["static", "src.txt"],
+            tr("O1", ["src.txt"], ["o1.txt"], need="OPTIONAL"),
+            tr("O2", ["o1.txt"], ["out/o2.txt"], need=o2_need)]
+    if u:
+        prog.append(tr("U", ["out/o2.txt"], ["u.txt"]))
+    return {"plan.py": script(prog), "src.txt": f"src {src}\n"}
+
+
+DOMAINS = {
+    "f_chain": {"a_tag": (1, 2), "b": (1, 0), "b_need": ("DEFAULT", "OPTIONAL"),
+                "b_out": ("b.txt", "b2.txt"), "c": (1, 0), "src": ("x", "y"), "src_exists": (1, 0)},
+    "f_subplan": {"sub": (1, 0), "where": ("sub", "root"), "inputs": ("explicit", "tree")},
+    "f_glob": {"present": (("a", "b"), ("a",), ("a", "b", "c"), ()), "mode": ("tree", "pattern")},
+    "f_amend": {"version": ("inp", "none", "inp_out"), "extra": ("static", "built", "absent"),
+                "order": ("amend_first", "read_first")},
+    "f_env": {"how": ("declared", "amended"), "v": (1, 2)},
+    "f_vol": {"outdir": ("out/deep", "out2"), "log": ("vol", "out", "none"),
+              "workdir": (".", "wd", "wd/in"), "present": (1, 0)},
+    "f_redefine": {"inp": (("src.txt",), (), ("src.txt", "src2.txt")), "out": (("r.txt",), ("r.txt", "r2.txt"))},
+    "f_optional": {"u": (1, 0), "o2_need": ("OPTIONAL", "DEFAULT"), "src": ("x", "y")},
+    "f_selfprod": {"sub": (1, 0)},
+    "f_hold": {"nesting": (2, 1), "v": (1, 2)},
+}
+ENV_DOMAIN = {"f_env": {"VERIF_X": (None, "1", "2")}}
